@@ -19,10 +19,11 @@ Leaves == { <<HsNInput, <<At(HsAType, HsVSubmit)>>>>,
 Templates == {<<c, <<>>>> : c \in Containers} \cup Leaves
 
 Cx1(c) == [cs |-> <<c>>, cb |-> <<>>]
-\* the third entry (:default:default in CSS) carries the literal reading of "first submit button in
-\* each form"; the harness uses it only to label a disagreement on :default, it never gates
-DefLit == [k |-> "default", alt |-> TRUE]
-Pool == << Cx1(<<HsK("default")>>), Cx1(<<HsK("checked")>>), Cx1(<<DefLit, DefLit>>) >>
+TypeS(n) == [k |-> "type", ns |-> Bare, name |-> n]
+\* the third entry (*:default in CSS) carries the form-owner reading of "first submit button in
+\* each form" (HtmlState: alt); the harness only records where the code departs from it (nested forms)
+DefOwner == [k |-> "default", alt |-> TRUE]
+Pool == << Cx1(<<HsK("default")>>), Cx1(<<HsK("checked")>>), Cx1(<<TypeS(Star), DefOwner>>) >>
 ASSUME PrintT(ToJson([pool |-> [s \in 1..Len(Pool) |-> <<Pool[s]>>]]))
 
 DepthOf(p) == IF p = 0 THEN 0 ELSE Cardinality(Anc(doc, p)) + 1
